@@ -181,7 +181,7 @@ let run (toks : string list) : string =
                if send (Hap.PVStart true) then ignore (send (fin true false true tail Hap.SInvalid))
              | "reflect" | "accname" -> if send (Hap.PVStart true) then ignore (send (fin true false true acc_name Hap.SInvalid))
              | "zerokey" | "randkey" | "flip" -> if send (Hap.PVStart true) then ignore (send (fin false false true name Hap.SInvalid))
-             | "inner-garbage" -> if send (Hap.PVStart true) then ignore (send (fin true false false name Hap.SInvalid))
+             | "inner-garbage" | "inner-trailing" -> if send (Hap.PVStart true) then ignore (send (fin true false false name Hap.SInvalid))
              | "short0" | "short7" | "short15" -> if send (Hap.PVStart true) then ignore (send (fin false true true name Hap.SInvalid))
              | "short16" -> if send (Hap.PVStart true) then ignore (send (fin false false true name Hap.SInvalid))
              | "keylen31" | "keylen33" | "keylen0" -> ignore (send (Hap.PVStart false))
@@ -238,6 +238,14 @@ let run (toks : string list) : string =
             emit (Printf.sprintf "PSPLIT=%s/%s"
                     (match rc with Hap.RNoContent -> "204" | Hap.RChars (st, _) -> string_of_int (int_of_n st) | Hap.RRefused470 -> "470" | _ -> "other")
                     (match ro with Hap.RRefused470 -> "470,canary=0" | Hap.RAccessories _ -> "200,canary=1" | _ -> "other"))
+          end
+        | "LSPLIT" :: c :: id :: vs ->
+          (* local sets while a subscription request of c is being handled: the sets first, then the request *)
+          if not (alive c) then emit "LSPLIT=noconn" else begin
+            L.iter (fun v -> ignore (step (Hap.OLocalSet (cid_of id, json_val v)))) (split_on '/' (String.concat ":" vs));
+            let rc = req c (Hap.ECharsPut [((cid_of id, None), Some (Hap.EvBool true))]) in
+            emit (Printf.sprintf "LSPLIT=%s"
+                    (match rc with Hap.RNoContent -> "204" | Hap.RChars (st, _) -> string_of_int (int_of_n st) | Hap.RRefused470 -> "470" | _ -> "other"))
           end
         | ["STALL"; c; _; _; _] -> emit (if alive c then "STALL=ok" else "STALL=noconn")
         | ["SRPMANY"; _n] -> emit "SRPMANY=ok"     (* C04_srp_completes: whatever the accessory's secret b *)
